@@ -452,15 +452,36 @@ func fpBatch(r *Rng, b int, tier string) []string {
 		}
 		base = fpCase{raw, 1, "randomized"}
 	case 4:
-		raw, err := helloFromSpec(genSaneSpec(r), r.U64(), "example.com")
+		spec := genSaneSpec(r)
+		src := "custom"
+		if b%12 == 4 {
+			// a PSK parrot with a filled-in pre_shared_key (last): AlwaysAddPadding x RealPSKResumption on a real capture
+			id := Pick(r, []tls.ClientHelloID{tls.HelloChrome_100_PSK, tls.HelloChrome_112_PSK_Shuf, tls.HelloChrome_114_Padding_PSK_Shuf, tls.HelloChrome_115_PQ_PSK})
+			ps, err := tls.UTLSIdToSpec(id)
+			if err != nil {
+				return nil
+			}
+			for i, e := range ps.Extensions {
+				if _, ok := e.(tls.PreSharedKeyExtension); ok {
+					ps.Extensions[i] = &tls.FakePreSharedKeyExtension{
+						Identities: []tls.PskIdentity{{Label: r.Bytes(1 + r.Intn(200)), ObfuscatedTicketAge: uint32(r.U64())}},
+						Binders:    [][]byte{r.Bytes(Pick(r, []int{32, 48}))}}
+				}
+			}
+			spec, src = &ps, "pskparrot"
+		}
+		raw, err := helloFromSpec(spec, r.U64(), "example.com")
 		if err != nil {
 			return nil
 		}
-		base = fpCase{raw, 1, "custom"}
+		base = fpCase{raw, 1, src}
 	default:
 		base = fpCase{genAssembled(r), 2, "assembled"}
 	}
 	var out []string
+	if b%48 == 1 {
+		out = append(out, fpEnumLines(r)...)
+	}
 	for f := 0; f < 8; f++ {
 		out = append(out, fpLine(r, base, f))
 	}
@@ -622,6 +643,104 @@ func fpBatch(r *Rng, b int, tier string) []string {
 			ins := append(append(append([]byte(nil), raw[:k]...), r.Bytes(n)...), raw[k:]...)
 			mut("ins", ins)
 		}
+	}
+	return out
+}
+
+// ---------- enumerated id fields ----------
+//
+// Every decoder that reads an *enumerated* field (a registry code point, a type byte, a version) gets
+// well-formed bodies carrying the boundary and registry-special values of that field: 0, the first and
+// last assigned values and their neighbours, reserved / private-use / export-only points, 0xff / 0xffff,
+// GREASE. Lengths stay consistent, so the value itself is what reaches the code behind the parser.
+
+var enumU16 = []int{0, 1, 2, 3, 4, 5, 0x10, 0x11, 0x12, 0x13, 0xff, 0x100, 0x0a0a, 0xfafa, 0x7fff, 0x8000, 0xfe00, 0xfffe, 0xffff}
+var enumU8 = []int{0, 1, 2, 3, 4, 64, 127, 128, 254, 255}
+
+func c07be16(v int) []byte { return []byte{byte(v >> 8), byte(v)} }
+
+func c07vec8(b []byte) []byte  { return append([]byte{byte(len(b))}, b...) }
+func c07vec16(b []byte) []byte { return append(c07be16(len(b)), b...) }
+
+func c07cat(bs ...[]byte) []byte {
+	var out []byte
+	for _, b := range bs {
+		out = append(out, b...)
+	}
+	return out
+}
+
+// enumExtBodies: (extension type, body) pairs.
+func enumExtBodies(r *Rng) []rawExt {
+	var out []rawExt
+	add := func(id int, body []byte) { out = append(out, rawExt{uint16(id), body}) }
+	// encrypted_client_hello: type, HPKE KDF id, HPKE AEAD id (full cross product of the special values), payload sizes
+	echIDs := []int{0, 1, 2, 3, 4, 5, 0x10, 0xff, 0xfffe, 0xffff}
+	for _, kdf := range echIDs {
+		for _, aead := range echIDs {
+			pl := Pick(r, []int{16, 17, 144, 32})
+			add(65037, c07cat([]byte{0}, c07be16(kdf), c07be16(aead), []byte{byte(r.Intn(256))}, c07vec16(r.Bytes(Pick(r, []int{32, 32, 1, 65}))), c07vec16(r.Bytes(pl))))
+		}
+	}
+	for _, t := range enumU8 {
+		add(65037, c07cat([]byte{byte(t)}, c07be16(1), c07be16(1), []byte{7}, c07vec16(r.Bytes(32)), c07vec16(r.Bytes(144))))
+	}
+	for _, pl := range []int{0, 1, 15, 16, 17, 65535 - 50} {
+		add(65037, c07cat([]byte{0}, c07be16(1+r.Intn(3)), c07be16(1+r.Intn(3)), []byte{7}, c07vec16(r.Bytes(32)), c07vec16(make([]byte, pl))))
+	}
+	// lists of 16-bit code points: groups, signature schemes (three extensions), certificate compression, versions
+	for _, v := range enumU16 {
+		w := Pick(r, enumU16)
+		add(10, c07vec16(c07cat(c07be16(v), c07be16(w))))
+		add(13, c07vec16(c07cat(c07be16(v), c07be16(w))))
+		add(50, c07vec16(c07be16(v)))
+		add(34, c07vec16(c07be16(v)))
+		add(27, c07vec8(c07cat(c07be16(v), c07be16(w))))
+		add(43, c07vec8(c07cat(c07be16(v), c07be16(w))))
+		add(28, c07be16(v))
+		// key_share: the group with a key of a size that fits / does not fit it
+		kl := Pick(r, []int{1, 32, 65, 97, 133, 1216, 1120})
+		add(51, c07vec16(c07cat(c07be16(v), c07vec16(r.Bytes(kl)))))
+	}
+	for _, v := range []int{0x0300, 0x0301, 0x0302, 0x0303, 0x0304, 0x0305, 0x7f1c, 0xfeff, 0xfefd} {
+		add(43, c07vec8(c07be16(v)))
+	}
+	for _, g := range []int{23, 24, 25, 29, 30, 256, 257, 260, 4587, 4588, 4589, 25497, 25498, 0x6399, 0xfe32} {
+		add(10, c07vec16(c07be16(g)))
+		add(51, c07vec16(c07cat(c07be16(g), c07vec16(r.Bytes(Pick(r, []int{32, 65, 97, 133, 1216, 1120, 1}))))))
+	}
+	// single-byte enumerations: point formats, PSK modes, status types, SNI name type, token binding
+	for _, v := range enumU8 {
+		add(11, c07vec8([]byte{byte(v)}))
+		add(45, c07vec8([]byte{byte(v), byte(Pick(r, enumU8))}))
+		add(5, c07cat([]byte{byte(v)}, c07vec16(nil), c07vec16(nil)))
+		add(17, c07vec16(c07cat([]byte{byte(v)}, c07be16(4), c07vec16(nil), c07vec16(nil))))
+		add(0, c07vec16(c07cat([]byte{byte(v)}, c07vec16([]byte("a.example")))))
+		add(24, c07cat([]byte{byte(v), byte(Pick(r, enumU8))}, c07vec8([]byte{byte(Pick(r, enumU8)), byte(v)})))
+	}
+	// pre_shared_key: ticket ages and binder sizes at the edges
+	for _, bl := range []int{0, 1, 31, 32, 33, 48, 64, 255} {
+		add(41, c07cat(c07vec16(c07cat(c07vec16(r.Bytes(1+r.Intn(40))), []byte{0xff, 0xff, 0xff, byte(bl)})), c07vec16(c07vec8(r.Bytes(bl)))))
+	}
+	return out
+}
+
+func enumHello(r *Rng, e rawExt) []byte {
+	h := &helloParts{recVer: 0x0301, hsVer: 0x0303, random: r.Bytes(32), sid: r.Bytes(32), suites: []byte{0x13, 0x01, 0xc0, 0x2f}, comp: []byte{0}}
+	h.exts = []rawExt{{0, c07vec16(c07cat([]byte{0}, c07vec16([]byte("example.com"))))}, e}
+	if e.id == 0 {
+		h.exts = h.exts[1:]
+	}
+	if e.id == 41 {
+		h.exts = append([]rawExt{h.exts[0], {43, []byte{2, 3, 4}}, {45, []byte{1, 1}}}, e)
+	}
+	return h.bytes()
+}
+
+func fpEnumLines(r *Rng) []string {
+	var out []string
+	for _, e := range enumExtBodies(r) {
+		out = append(out, fpLine(r, fpCase{enumHello(r, e), 0, "enum"}, -1))
 	}
 	return out
 }
@@ -826,6 +945,21 @@ func impBatch(r *Rng, b int, tier string) []string {
 		}
 		m["extensions"] = ids
 		emit(m, "idlist")
+	}
+	// enumerated code points in every data-carrying field
+	for i := 0; i < 12; i++ {
+		m := cp()
+		v, w := Pick(r, enumU16), Pick(r, enumU16)
+		m["extensions"] = []byte{0, 10, 0, 11, 0, 13, 0, 43, 0, 45, 0, 27, 0, 28, 0, 51}
+		m["curves"] = c07vec16(c07cat(c07be16(v), c07be16(w)))
+		m["pt_fmts"] = c07vec8([]byte{byte(Pick(r, enumU8))})
+		m["sig_algs"] = c07vec16(c07cat(c07be16(w), c07be16(v)))
+		m["supported_versions"] = c07cat(c07be16(Pick(r, []int{0x0300, 0x0304, 0x0305, 0x7f1c, v})), c07be16(w))
+		m["psk_key_exchange_modes"] = []byte{byte(Pick(r, enumU8)), byte(Pick(r, enumU8))}
+		m["cert_compression_algs"] = c07cat(c07be16(v), c07be16(w))
+		m["record_size_limit"] = c07be16(v)
+		m["key_share"] = c07cat(c07be16(v), c07be16(Pick(r, []int{0, 1, 32, 65, 255, 256, 1216})), c07be16(w), c07be16(Pick(r, []int{1, 32})))
+		emit(m, "enum")
 	}
 	{
 		m := cp()
@@ -1470,6 +1604,24 @@ func jsonBatch(r *Rng, b int, tier string) []string {
 				e.del(k)
 			}
 			mut(m, "field")
+		}
+	}
+	// enumerated / numeric fields at their boundaries (uint8, uint16, uint32, uint64 targets; GREASE ids)
+	if exts != nil && exts.kind == 'a' {
+		nums := []int64{0, 1, 2, 255, 256, 2570, 0x1a1a, 65535, 65536, 1<<32 - 1, 1 << 32, 1<<63 - 1, -1}
+		for i := 0; i < 6; i++ {
+			m := d.clone()
+			a := m.get("extensions")
+			n := Pick(r, nums)
+			e := Pick(r, []*jv{
+				jObj().set("name", jStr("padding")).set("len", jNum(n)),
+				jObj().set("name", jStr("record_size_limit")).set("record_size_limit", jNum(n)),
+				jObj().set("name", jStr("GREASE")).set("id", jNum(n)).set("keep_id", jBool(r.Bool())).set("keep_data", jBool(r.Bool())).set("data", jStr("AAEC")),
+				jObj().set("name", jStr("token_binding")).set("token_binding_version", jObj().set("major", jNum(n)).set("minor", jNum(Pick(r, nums)))).set("key_parameters_list", jStrs([]string{"ecdsap256"})),
+				jObj().set("name", jStr("pre_shared_key")).set("identities", jArr(jObj().set("identity", jStr("QUJD")).set("obfuscated_ticket_age", jNum(n)))).set("binders", jArr(jArr(jNum(n%300), jNum(7)))),
+			})
+			a.arr = append(a.arr, e)
+			mut(m, "enum")
 		}
 	}
 	// malformed text
